@@ -405,6 +405,28 @@ def clause_d(c: Check):
             c.expect(bad is None, 'C17-d', 'standalone/default-suite-beside-the-file-named',
                      'the default suite file of a standalone run is looked for at a path that is %s: for a case reached '
                      'through a symbolic link the `exactly.suite` beside the link is not found' % bad, nf_.loc())
+    # a suite that cannot be read is an error of the standalone run too (as it is INVALID_SUITE in a suite run): when
+    # reading / resolving the suite fails, `_handling_setup` fails - it never falls back to running without the suite
+    spe = ix.try_lookup('exactly_lib.test_suite.file_reading.exception:SuiteParseError')
+    c.require(isinstance(spe, ClassDef), 'C17-d: SuiteParseError not found')
+
+    class HS(Hooks):
+        def inline(self, fd, st):
+            return fd is nested_for_default(hs)
+
+        def may_raise(self, callee_def, node, st):
+            return [spe] if callee_def is rf else []
+
+    n_fail = 0
+    for p in util.func_paths(ix, fo, hs, HS()):
+        if not any(e.kind == 'raised' for e in p.trace):
+            continue
+        n_fail += 1
+        c.expect(p.kind == 'raise', 'C17-d', 'standalone/unreadable-suite-is-an-error',
+                 'when the suite (given or found beside the case) cannot be read the standalone run goes on with %s: '
+                 'the case is run without the contents of its suite, while the suite run reports INVALID_SUITE' % (
+                     util.describe(p.val) if p.kind == 'return' else p.kind), hs.loc())
+    c.floor('C17-d', 'paths of _handling_setup on which reading the suite fails', n_fail, 1)
     # decision table of the suite file selection
     nested = None
     for kind, *rest in hs.local_bindings().get('get_suite_file', []):
